@@ -762,11 +762,14 @@ var burnScenario = ledger.Scenario{
 	Lo:      3, Hi: 12,
 	GenExtra: func(r *sim.RNG, p *sim.Plan, tier string) {
 		p.Steps = mix(r.Child("mix"), p.Steps, genBridge(r.Child("bridge"), p, tier, true, r.Intn(3) == 0))
+		genNodeFault(r.Child("nodefault"), p, tier)
 	},
 	Setup: func(w *ledger.World, r *ledger.Runner) []ledger.Observer {
 		setupRaw(w, r)
 		setupBridge(w, r)
-		return []ledger.Observer{newBurnOracle()}
+		bt := newBurnTracker()
+		setupNodeFault(w, r, bt)
+		return []ledger.Observer{newBurnOracle(), bt}
 	},
 }
 
@@ -789,7 +792,7 @@ func init() {
 		ID: "C19", Title: "Bridge burns lock the value and advance the burn nonce by one", World: "ledger",
 		Gen: burnScenario.Gen, Exec: burnScenario.Exec,
 		Quick: sim.Budget{Runs: 400, WallS: 75}, Thorough: sim.Budget{Runs: 40000, WallS: 700},
-		LevelText: "seeded search over burn histories: several burners, values around the configured minimum (0, min-1, min, min+1, half / all / more than the balance), repeated, new, empty, missing and malformed target addresses, min_burn varied through the real update-global-config owner transaction, replays of applied transactions; " +
+		LevelText: "seeded search over burn histories: several burners, values around the configured minimum (0, min-1, min, min+1, half / all / more than the balance), repeated, new, empty, missing and malformed target addresses, min_burn varied through the real update-global-config owner transaction, replays of applied transactions; in half of the seeds every block is persisted and one or two plan-controlled state faults hit the burn of a client that already burned to the address, after the head was rebased on the persistent node DB with a fresh state cache: the leaf of the address' user node dropped from the simulated disk (put back afterwards), and a one-shot disk read error on the first node read of the user-node lookup (reported to the contract as a missing node); " +
 			"on the MPT diff of every burn: burner -value, bridge wallet +value, the address' user node nonce +1 and equal to the number of successful burns for that address, nothing else; refused burns and every other transaction leave all burn nonces and the bridge wallet untouched",
 		LevelNote: "the per-address counter of the oracle is its own (number of successful burns it observed), compared with the nonce stored in the trie",
 		Technique: "deterministic simulation: seeded burn histories, allowed-diff oracle on the real trie",
